@@ -1,5 +1,6 @@
 import Drand
 open Drand.Driver.AggD
+open Drand.Driver.BcastD
 open Drand.Driver.CacheD
 open Drand.Driver.CbStoreD
 open Drand.Driver.ChainD
@@ -72,6 +73,7 @@ def main (args : List String) : IO UInt32 := do
   | "dispatch" :: _ => loopState stdin stdout dispatchStep dispatchInit; return 0
   | ["agg"] => loopState stdin stdout aggStep AggState.empty; return 0
   | ["dkgrun"] => loopPure stdin stdout dkgrunStep; return 0
+  | ["bcast"] => loopState stdin stdout bcastStep ({} : St); return 0
   | ["handler"] => loopState stdin stdout handlerStep ({ cfg := ⟨1, 0, 0, Gen.Handler.bnpSkipAhead⟩ } : Sim); return 0
   | ["handler", "asis"] => loopState stdin stdout handlerStep ({ cfg := ⟨1, 0, 0, false⟩ } : Sim); return 0
   | ["handler", "fixed"] => loopState stdin stdout handlerStep ({ cfg := ⟨1, 0, 0, true⟩ } : Sim); return 0
